@@ -1,3 +1,4 @@
+import SF.Lemmas.Eft
 import SF.Props.C04
 import SF.Props.C13
 import SF.Props.C14
@@ -339,4 +340,10 @@ theorem vsct_view_bound (N : Nat) (hN : 0 < N) (xs : List ℝ) (v : ℝ)
 re-evaluation that `./check C11` compares with the implementation exactly) -/
 theorem fisher_bound (N : Nat) (ma : List ℝ → Option ℝ) (xs : List ℝ) (v : ℝ) (h : Spec.fisher N ma xs = some v) :
     |v| ≤ Real.log 199 := Bounds.fisher_bound N ma xs v h
+/-- … and so the view itself: |EhlersFisherTransform| ≤ ln 199 for every N ≥ 1, every stream and every realising moving
+average (state machine = spec by C11 `fisher_eq`) -/
+theorem fisher_view_bound (N : Nat) (hN : 0 < N) (ma : View ℝ) (maS : List ℝ → Option ℝ) (hR : Eft.Realises ma maS)
+    (xs : List ℝ) (v : ℝ) (h : (eftCore N ma).outAfter xs = .ok (some v)) : |v| ≤ Real.log 199 := by
+  rw [Eft.outAfter_eq N hN ma maS hR] at h
+  exact Bounds.fisher_bound N maS xs v (by simpa using h)
 end SF.C07
